@@ -10,7 +10,7 @@
                         identifiers, formulae and SMILES-like labels, e.g. CC(=O)O, C#C, Fe(OH)3 ([ex_label_domain]).
       [rxns_of H]       the stored reactions (rule, reactants, products) as a list; multiset equality is [≡ₚ]. *)
 From stdpp Require Import gmap strings sets.
-From SK Require Import lib.Tok model.C15_Model proof.C15_Proof model.C16_Model proof.C16_Defs proof.C16_Chars proof.C16_Str proof.C16_Sg proof.C16_BipA proof.C16_BipB proof.C16_BipNum proof.C16_BipMarker proof.C16_Reach proof.C16_SgMol proof.C16_SgRules proof.C16_StrItems proof.C16_StrOrder model.C16_Edit proof.C16_BipDrop.
+From SK Require Import lib.Tok model.C15_Model proof.C15_Proof model.C16_Model proof.C16_Defs proof.C16_Chars proof.C16_Str proof.C16_Sg proof.C16_BipA proof.C16_BipB proof.C16_BipNum proof.C16_BipMarker proof.C16_Reach proof.C16_SgMol proof.C16_SgRules proof.C16_StrItems proof.C16_StrOrder model.C16_Edit proof.C16_BipDrop proof.C16_SgDrop.
 Local Open Scope string_scope.
 
 (** every network reachable through the store operations (C15_inv_reachable) satisfies the decidable premise used below *)
@@ -249,3 +249,17 @@ Theorem C16_untagged_default_prefixes : ∀ (fl : bflags) (d : drops) (mol_attr 
   edges (bipartite_to_hypergraph (default_iflags mol_attr) (drop_attrs d (hypergraph_to_bipartite fl H))).1 = edges H.
 Proof. exact untagged_default_prefixes. Qed.
 Print Assumptions C16_untagged_default_prefixes.
+
+(** the same for the species graph ([sdrop_attrs], model/C16_Edit.v): ids and coefficients come back from `via` and the
+    per-reaction maps alone — the node `label` (absent: the node id), `kind`, `mol`, the `rules` sets and the legacy per-arc
+    values stoich_r / stoich_p may all be deleted.  (Deleting the per-reaction maps instead breaks the clause as soon as two
+    reactions share a species pair with different coefficients: [ex_sdrop_maps_needed]; non-vacuity [ex_sdrop_nonvacuous].) *)
+Theorem C16_species_graph_roundtrip_edited : ∀ (pick : gset string → string) (default_rule : string) (include_mol mol_attr : bool)
+    (d : sdrops) (H : net),
+  map_Forall (λ _ rx, r_lhs rx ≠ ∅ ∧ r_rhs rx ≠ ∅) (edges H) → sd_maps d = false →
+  (species_graph_to_hypergraph pick default_rule mol_attr (sdrop_attrs d (hypergraph_to_species_graph include_mol H))).2 = None ∧
+  (λ rx, (r_lhs rx, r_rhs rx)) <$> edges (species_graph_to_hypergraph pick default_rule mol_attr
+                                            (sdrop_attrs d (hypergraph_to_species_graph include_mol H))).1
+    = (λ rx, (r_lhs rx, r_rhs rx)) <$> edges H.
+Proof. exact species_graph_roundtrip_edited. Qed.
+Print Assumptions C16_species_graph_roundtrip_edited.
